@@ -280,3 +280,19 @@ PROPS["C06"] = {
     "assumptions": COMMON_ASSUMPTIONS + ["the URL resolver follows the WHATWG algorithm for special schemes as understood by the author; over-rejection of odd but harmless strings is not a violation",
                                           "apex host under a leading-dot / wildcard rule and an explicitly written default port are judged 'either'"],
 }
+
+PROPS["C19"] = {
+    "level": "exploration",
+    "quick_runs": 600, "quick_budget_s": 150, "thorough_budget_s": 600,
+    "rule": "one run = one validated configuration (store, csrf-per-request, encode-state, provider button, refresh / expire 0 or finite, secret size, request AND response header lists "
+            "over every injectable claim incl. created_at / expires_on / an unknown claim as plain / prefixed / basic-auth values, 16 further options, reverse-proxy with each supported "
+            "real-client-IP header) + genuine material of every session source (cookie session, CSRF cookie of an open login, bearer token, htpasswd incl. an unparseable bcrypt entry) + "
+            "150-299 requests built by grammar mutation at the raw text level: 15 methods x 32 request-targets (asterisk, absolute form, bad escapes, NUL, 6000-byte path) x 20 queries "
+            "(state / code / rd / allowed_* shapes, semicolons, 9 kB values) x 10 Host values x 9 peer addresses x 16 cookie shapes (empty, separators only, 9 kB, truncated genuine, "
+            "out-of-range timestamps, VALIDLY SIGNED cookies / tickets / split parts with 12 malformed payload classes) x CSRF cookie shapes x 22 Authorization shapes (malformed Basic / "
+            "Bearer, JWT-shaped garbage, validly signed tokens with wrongly typed claims) x 33 forwarding / misc header values x 8 bodies; parsed by http.ReadRequest; oracle: no panic "
+            "(recover around the direct ServeHTTP call) and a 2xx-5xx status; the same monitor runs on every request of every other property's runs, also under store / IdP faults; "
+            "non-trivial = at least one request reached a handler; distinct = configuration + event hash",
+    "level_text": "seeded grammar mutation of whole requests x configuration swarm x all session sources; panic monitor on all traffic of all runs",
+    "assumptions": COMMON_ASSUMPTIONS + ["not coverage-guided; what http.ReadRequest refuses never reaches a handler in production either"],
+}
